@@ -21,21 +21,39 @@ PROPS["C13"] = {
              "distinct = FNV-64 of the serialised case"),
     "assumptions": ["verifref Keccak-f[1600]/STROBE/Merlin are correct (self-tested against x/crypto/sha3 and published vectors)",
                     "x/crypto/sha3 is correct"],
+    # default and purego are the two Keccak-f[1600] implementations (amd64 assembly / Go); force32bit does not change
+    # any code of these two packages and only gets a smaller share "for completeness".
     "units": [
         {
-            "pkg": "internal/strobe", "configs": B3,
+            "pkg": "internal/strobe", "configs": ["default", "purego"],
             "tests": {
-                "TestC13StrobeOps": T(20000, 1500000),
+                "TestC13StrobeOps": T(20000, 1000000),
                 "TestC13Keccak": T(20000, 2000000),
                 "TestC13KeccakBits": LIST(),
             },
         },
         {
-            "pkg": "primitives/merlin", "configs": B3,
+            "pkg": "primitives/merlin", "configs": ["default", "purego"],
             "tests": {
                 "TestC13History": T(30000, 2000000),
-                "TestC13Twin": T(4000, 200000),
-                "TestC13Injective": T(20000, 1000000),
+                "TestC13Twin": T(4000, 150000),
+                "TestC13Injective": T(20000, 600000),
+            },
+        },
+        {
+            "pkg": "internal/strobe", "configs": ["force32bit"],
+            "tests": {
+                "TestC13StrobeOps": T(4000, 100000),
+                "TestC13Keccak": T(4000, 200000),
+                "TestC13KeccakBits": LIST(),
+            },
+        },
+        {
+            "pkg": "primitives/merlin", "configs": ["force32bit"],
+            "tests": {
+                "TestC13History": T(6000, 200000),
+                "TestC13Twin": T(1000, 20000),
+                "TestC13Injective": T(4000, 60000),
             },
         },
     ],
